@@ -231,6 +231,36 @@ def focus_for(prop):
 
     def barrier(sc, rng):
         # shutdown() without cancel entered while several transfers are in flight, some failing
+        if rng.random() < 0.3:
+            # a multipart copy / upload with parts in flight next to a transfer that fails or is cancelled first:
+            # wait() gives up at the first failure, the executor joins are the barrier
+            victim = {'kind': rng.choice(['copy', 'copy', 'upload']), 'size': rng.choice([8, 11, 13]), 'subscribers': [{'id': 0}]}
+            if victim['kind'] == 'upload':
+                victim.update(source=rng.choice(['path', 'seekable', 'nonseekable']), rewinds=0, sign_reads=False)
+            other = {'kind': rng.choice(['delete', 'upload', 'copy']), 'size': rng.choice([1, 3]), 'subscribers': []}
+            if other['kind'] == 'upload':
+                other.update(source='path', rewinds=0, sign_reads=False)
+            sc['transfers'] = [other, victim] if rng.random() < 0.5 else [victim, other]
+            sc['cfg']['multipart_threshold'] = rng.choice([4, 6])
+            sc['cfg']['multipart_chunksize'] = rng.choice([2, 3])
+            sc['cfg']['max_request_concurrency'] = rng.choice([1, 2, 3])
+            op = {'delete': 'delete_object', 'upload': 'put_object', 'copy': 'copy_object'}[other['kind']]
+            how = rng.random()
+            if how < 0.5:
+                sc['faults'] = [{'site': 'req', 'op': op, 'nth': 0, 'when': rng.choice(['before', 'after']), 'exc_kind': 'plain'}]
+                sc['cancel'] = None
+                sc['early_shutdown'] = rng.choice([0, 1, 2, 5, 10, 20])
+            elif how < 0.75:
+                sc['faults'] = []
+                sc['cancel'] = {'kind': 'exit-exc', 'exc': rng.choice(['value', 'interrupt']), 'after_steps': rng.choice([0, 2, 10, 20])}
+                sc.pop('early_shutdown', None)
+            else:
+                sc['faults'] = []
+                sc['cancel'] = {'kind': 'shutdown', 'msg': '', 'after_steps': rng.choice([0, 2, 10, 20])}
+                sc.pop('early_shutdown', None)
+            sc['fresh_after'] = False
+            sc['mode'] = rng.choice(['uniform', 'pct', 'stall'])
+            return
         if rng.random() < 0.5:
             multipart(sc, rng)          # multipart uploads / copies with a fault among them
             if len(sc['transfers']) < 2:
@@ -256,6 +286,17 @@ def _worker(args):
         sc = explore.gen_scenario(rng, focus if (focus and rng.random() < 0.7) else None)
         if rng.random() < SERIAL_SHARE.get(prop, 0.12):
             explore.make_serial(sc, rng)
+        elif [f for f in sc['faults'] if f.get('op') != 'abort_multipart_upload'] and rng.random() < 0.08:
+            # a BaseException that is not an Exception (SystemExit from a callback, an interrupt re-raised by a
+            # wrapper) inside a task of a worker thread: the pool keeps it on the task's future
+            # (not inside a failure cleanup: a non-Exception raised by the abort call itself escapes announce_done
+            #  before the done event is set — outside what the properties quantify over, noted in DESIGN.md)
+            f = rng.choice([f for f in sc['faults'] if f.get('op') != 'abort_multipart_upload'])
+            if f['site'] == 'body':
+                f['kind'] = 'base'
+            else:
+                f['exc_kind'] = 'base'
+            out['dist']['threaded:base-exception-inside-a-task'] = out['dist'].get('threaded:base-exception-inside-a-task', 0) + 1
         run = explore.run_scenario(sc)
         res = explore_judge.judge_all(run, [prop])
         out['evaluations'] += 1
@@ -323,3 +364,48 @@ def make(prop):
 
 for _p in ['C01', 'C02', 'C03', 'C04', 'C05', 'C06', 'C07', 'C08', 'C09', 'C10', 'C11', 'C12', 'C16', 'C18']:
     globals()['oracle_' + _p] = make(_p)
+
+
+
+def submission_base_exception_oracle(prop):
+    """A non-Exception BaseException (sys.exit() in a callback, a greenlet kill, …) raised in the submission thread —
+    by a read of the source stream — while parts of the same upload are in flight: the parts' bodies re-raise the
+    recorded exception in their own threads (InterruptReader), and the transfer must still be announced."""
+    def oracle(seed, tier):
+        import explore
+        import explore_judge
+        res = OracleResult(prop)
+        rng = rng_for(seed, 'submission-base', prop)
+        for i in range(40 if tier == 'quick' else 1500):
+            sc = explore.gen_scenario(rng, None)
+            explore.strip_chains(sc)
+            sc['transfers'] = [{'kind': 'upload', 'size': rng.choice([8, 11, 13, 17]), 'source': rng.choice(['seekable', 'nonseekable']),
+                                'rewinds': 0, 'sign_reads': False, 'subscribers': [{'id': 0}]}]
+            sc['cfg'].update(multipart_threshold=4, multipart_chunksize=rng.choice([2, 3]), max_in_memory_upload_chunks=rng.choice([1, 2, 3]),
+                             max_request_concurrency=rng.choice([1, 2]), max_request_queue_size=rng.choice([2, 3]))
+            sc['cfg'].pop('max_bandwidth', None)
+            sc['faults'] = [{'site': 'src-read', 'transfer': 0, 'nth': rng.choice([1, 2, 3]), 'exc_kind': 'base'}]
+            sc['cancel'] = None
+            sc.pop('early_shutdown', None)
+            sc['fresh_after'] = False
+            sc['mode'] = rng.choice(['uniform', 'sticky', 'pct'])
+            sc.pop('stall', None)
+            run = explore.run_scenario(sc)
+            res.evaluations += 1
+            res.hit('submission-thread-base-exception')
+            if run.sch.multi_runnable_points > 0:
+                res.nontrivial.add(i)
+            for sig, wit, what in explore_judge.judge_all(run, [prop]).get(prop, []):
+                wit = json.loads(json.dumps(wit, default=str))
+                wit['schedule'] = run.sch.choices[:600]
+                res.violation(sig, wit, what)
+            if res.enough():
+                break
+        res.samples.append({'scenario': json.loads(json.dumps(sc, default=str))})
+        return res
+    oracle.__name__ = 'submission_base_exception_%s' % prop
+    return oracle
+
+
+oracle_base_C04 = submission_base_exception_oracle('C04')
+oracle_base_C08 = submission_base_exception_oracle('C08')
